@@ -128,4 +128,4 @@ def count(name, lines, ib, stats, meta):
         kinds = tuple(sorted(set(fr[34 + 14 * j] for j in range(min(n, (len(fr) - 34) // 14)))))
         stats['distinct'].add((ccls, 576 if mtu == 576 else 1500 if mtu == 1500 else 9216 if mtu == 9216 else 'r', kinds, d['esrc'] != d['rsrc']))
         if len(stats['samples']) < 4 and 1 < n <= 3: stats['samples'].append({'declared': n, 'mtu': mtu, 'port_calls': [a[:70] for a in b.acts]})
-EXPLORE = dict(ops=('frame',), mtu=True)
+EXPLORE = dict(domain='frames', ops=('frame',), mtu=True)
